@@ -141,7 +141,7 @@ def coq_bytes(b):
     return '(bytes_to_string [%s])' % '; '.join(str(x) for x in b)
 
 
-def collect():
+def _collect_live():
     T = tables2coq.collect()
     out = {'tables': T, 'cats': {}}
     for key in ['opt', 'vul', 'qa']:
@@ -185,7 +185,7 @@ Local Open Scope string_scope.
 
 
 def generate():
-    S = collect()
+    S = _collect_live()
     T = S['tables']
     L = [HEADER]
     fn = {'opt': 'optimization_section', 'vul': 'vulnerability_section', 'qa': 'qa_section'}
@@ -229,3 +229,9 @@ if __name__ == '__main__':
         open(sys.argv[1], 'w', encoding='utf-8').write(out)
     else:
         sys.stdout.write(out)
+
+
+def collect():
+    """live tables, or (when the source can no longer be read) the snapshot of the last readable tree"""
+    import vlib
+    return vlib.with_snapshot('sections2coq_collect', _collect_live)
